@@ -295,10 +295,51 @@ class Builder:
             self.add(Die(TAG["variable"], [Attr(AT[at], FORM[f], bytes(e))]), Exp("loc-ops", expr=bytes(e), want=want),
                      "%s/%s operations %s" % (at, f, bytes(e).hex()[:40]), True)
 
+    def macinfo(self):
+        """A .debug_macinfo contribution of the unit (DWARF 2-4 macro information): define / undef (line, text),
+        start_file (line, file index), end_file, vendor_ext (number, text).  Returns (section bytes, offset of the
+        unit's part, the stored entries)."""
+        pad = bytes([1]) + uleb(1) + b"PAD 1\0" + b"\0"           # another unit's entries in front
+        out = bytearray()
+        entries = []
+        depth = 0
+        for _ in range(self.r.randint(0, 12)):
+            k = self.r.randint(0, 9)
+            line = self.r.choice([0, 1, 7, 127, 128, 300, 70000])
+            if k <= 3:
+                txt = self.r.choice([b"A 1", b"F(x) x+1", b"EMPTY", b"S \"q\"", b"N\xc3\xa9"])
+                code = 1 if k <= 2 else 2
+                out += bytes([code]) + uleb(line) + txt + b"\0"
+                entries.append((code, line, txt))
+            elif k <= 5:
+                fi = self.r.choice([1, 2, 3, 9, 200])
+                out += bytes([3]) + uleb(line) + uleb(fi)
+                entries.append((3, line, fi))
+                depth += 1
+            elif k <= 7 and depth:
+                out += bytes([4])
+                entries.append((4,))
+                depth -= 1
+            else:
+                num = self.r.choice([0, 5, 1000])
+                txt = self.r.choice([b"vendor", b""])
+                out += bytes([255]) + uleb(num) + txt + b"\0"
+                entries.append((255, num, txt))
+        out += b"\0"
+        return pad + bytes(out), len(pad), entries
+
     def build(self):
         for fn in (self.strings, self.refs, self.flags, self.addresses, self.enumerated, self.lines, self.integrals, self.const_values, self.locations):
             fn()
-        root = Die(TAG["compile_unit"], [Attr(AT["name"], FORM["string"], b"c07.c"), Attr(AT["language"], FORM["data1"], 1)], self.top)
+        rattrs = [Attr(AT["name"], FORM["string"], b"c07.c"), Attr(AT["language"], FORM["data1"], 1)]
+        self.extra_sections = []
+        if self.v <= 4 and self.r.random() < 0.7:
+            sec, off, entries = self.macinfo()
+            self.extra_sections.append((b".debug_macinfo", sec))
+            rattrs.insert(0, Attr(AT["macro_info"], FORM["sec_offset" if self.v >= 4 else "data4"], off))
+        root = Die(TAG["compile_unit"], rattrs, self.top)
+        if rattrs[0].name == AT["macro_info"]:
+            self.cases.append((root, Exp("macinfo", entries=entries), "macro_info/%s %d entries" % ("sec_offset" if self.v >= 4 else "data4", len(entries)), True))
         return Forest([Unit(root, self.v)])
 
 
@@ -370,6 +411,18 @@ def judge(r, exp):
         if got != exp.want:
             return "operations read through elem/label/value: %r, stored %r" % (got[:4], exp.want[:4])
         return None
+    if k == "macinfo":
+        got = []
+        for n, s_ in enumerate(res):
+            v = s_[-1]
+            if v["t"] != "q" or v["p"] != n:
+                return "macro information entry #%d is %r at position %r" % (n, v["t"], v.get("p"))
+            got.append(tuple(int(e["v"]) if e["t"] == "c" else bytes.fromhex(e["x"]) for e in v["e"]))
+        if got != [tuple(e) for e in exp.entries]:
+            j = next((j for j in range(max(len(got), len(exp.entries))) if j >= len(got) or j >= len(exp.entries) or got[j] != tuple(exp.entries[j])), 0)
+            return "macro information: %d entries, stored %d; entry #%d is %r, stored %r" % (
+                len(got), len(exp.entries), j, got[j] if j < len(got) else None, exp.entries[j] if j < len(exp.entries) else None)
+        return None
     if len(res) != 1:
         return "yields %d values" % len(res)
     v = res[0][-1]
@@ -419,7 +472,7 @@ def work(task):
             version = rnd.choice([2, 3, 4, 5])
             b = Builder(rnd, version)
             f = b.build()
-            data = build_file(f, extra_sections=[(b".debug_line", b"\0" * 64)])
+            data = build_file(f, extra_sections=[(b".debug_line", b"\0" * 64)] + b.extra_sections)
             try:
                 with TempElf(data) as path:
                     h = drv.open(path, i % 2 == 1)
